@@ -19,7 +19,11 @@ Keys  == {"matchFirst", "matchSecond", "none"}
 \* spKey: the SP publishes its encryption certificate with use="encryption", or one certificate without a use attribute
 \* (good for signing and encryption alike) -- either way it has an encryption certificate
 Scn == [producer : {"idp"}, signResp : BOOLEAN, signAssert : BOOLEAN, advice : BOOLEAN, selfContained : BOOLEAN,
-        pefim : BOOLEAN, keys : Keys, inner : {"none"}, wantAssert : BOOLEAN, companion : {FALSE}, spKey : {"labelled", "unlabelled"},
+        pefim : BOOLEAN, keys : Keys, inner : {"none"}, wantAssert : BOOLEAN, companion : {FALSE},
+        \* "methods": the encryption key descriptor lists the algorithms the SP prefers (md:EncryptionMethod: AES-GCM, RSA-OAEP);
+        \* "extra_keyname": next to it stands a second encryption key descriptor that holds a ds:KeyName only.  Either way the
+        \* SP has an encryption certificate: what is emitted for it is encrypted, or nothing is emitted
+        spKey : {"labelled", "unlabelled", "methods", "extra_keyname"},
         \* priorVerify: the same IdP object has just verified a signed AuthnRequest of that SP (looked its *signing*
         \* certificate up); the assertion is encrypted under the encryption certificate all the same
         priorVerify : BOOLEAN,
@@ -32,7 +36,9 @@ Scn == [producer : {"idp"}, signResp : BOOLEAN, signAssert : BOOLEAN, advice : B
              via : {"argument"}]
 
 \* the prior verification is combined with the plain build options only
-WellFormed(s) == /\ s.priorVerify => ~s.advice /\ ~s.pefim /\ s.selfContained /\ s.keys = "matchFirst" /\ s.spKey = "labelled" /\ s.via = "argument"
+WellFormed(s) == /\ s.spKey \in {"methods", "extra_keyname"} => ~s.advice /\ ~s.pefim /\ s.selfContained /\ s.keys = "matchFirst" /\ ~s.priorVerify
+                                                                 /\ s.via = "argument" /\ s.producer = "idp"
+                 /\ s.priorVerify => ~s.advice /\ ~s.pefim /\ s.selfContained /\ s.keys = "matchFirst" /\ s.spKey = "labelled" /\ s.via = "argument"
                  /\ s.via = "config" => s.keys = "matchFirst" /\ s.spKey = "labelled" /\ ~s.wantAssert
 VARIABLES scn, pc, plain, sigChecked, verdict
 vars == <<scn, pc, plain, sigChecked, verdict>>
